@@ -305,6 +305,24 @@ def resetFor (r : ResetCfg) (s : St) (src : List Inp) : St :=
     ret := if r.ret then [] else s.ret,
     enq := [], err := none, dropped := [] }
 
+/-- the "run in progress" flag of the pool (`_map_guard`): `restart_workers`, `close`, `terminate` and `run` itself refuse to
+    work while it is set. Where `run()` sets and clears it is regenerated from /repo (`Gen.poolGuard`). -/
+structure GuardCfg where
+  setInTry : Bool           -- `self._map_guard = True` is the first thing inside the `try` (not in front of it)
+  clearedInFinally : Bool   -- the `finally` of that `try` does `self._map_guard = False`
+deriving Repr, DecidableEq
+
+/-- the ways `run()` can end -/
+inductive RunEnd where
+  | noWorkers      -- the early `return` in front of the `try`: no usable worker
+  | returned | poolError | raised
+deriving Repr, DecidableEq
+
+/-- the flag after a `run()` that found it clear -/
+def guardAfter (g : GuardCfg) : RunEnd → Bool
+  | .noWorkers => !g.setInTry          -- set in front of the early return: nobody clears it
+  | _ => !g.clearedInFinally             -- the `try` was entered: its `finally` decides
+
 /-- `run()` returns at once (with `None`) when no usable worker is left -/
 def usable (s : St) : Bool := s.ws.any (fun w => !w.closed)
 
